@@ -117,6 +117,10 @@ func (c02) Run(c *mon.Ctx, i int) {
 		if vs == nil {
 			vs = base
 		}
+	case i%25 == 3:
+		// tiny dynamic block meeting the full 64 KiB output window (every delta)
+		st, plain, d := synth.WindowEdge(r, i/25%6, r.Range(1, 4), r.Pick(0, 0, 1, 2), r.Bool(), r.Chance(1, 4))
+		vs = &ValidStream{S: st, Plain: plain, Desc: "synth " + d}
 	case i%50 == 7:
 		st, plain, d := synth.TwoDeepTrees(r, r.Bool())
 		vs = &ValidStream{S: st, Plain: plain, Desc: "synth " + d}
